@@ -263,9 +263,7 @@ def swap_sets(labels, tier, npairs):
     mx = 2 if tier == 'quick' else 3
     for k in range(2, mx + 1):
         combos = list(itertools.combinations(pairs, k))
-        if tier == 'quick':
-            combos = combos[::3]
-        elif k == 3:
+        if k == 3:
             combos = combos[::4]
         out += [[list(p) for p in c] for c in combos]
     return out
